@@ -180,6 +180,15 @@ void lp_polynomial_swap(lp_polynomial_t* A1, lp_polynomial_t* A2) {
   // Swap everything, but keep the external flags
   lp_polynomial_t tmp = *A1; *A1 = *A2; *A2 = tmp;
   SWAP(unsigned, A1->external, A2->external);
+  // An external polynomial holds a reference to its context: the contexts
+  // moved and the flags did not, so move the references along (attach first,
+  // so that no context is released while it is still needed)
+  if (A1->ctx != A2->ctx) {
+    if (A1->external && A1->ctx) lp_polynomial_context_attach((lp_polynomial_context_t*) A1->ctx);
+    if (A2->external && A2->ctx) lp_polynomial_context_attach((lp_polynomial_context_t*) A2->ctx);
+    if (A1->external && A2->ctx) lp_polynomial_context_detach((lp_polynomial_context_t*) A2->ctx);
+    if (A2->external && A1->ctx) lp_polynomial_context_detach((lp_polynomial_context_t*) A1->ctx);
+  }
 }
 
 void lp_polynomial_assign(lp_polynomial_t* A, const lp_polynomial_t* from) {
